@@ -189,15 +189,27 @@ Definition enc_schange (v : Z) (c : schange) : bytes :=
         enc_string ch ++ enc_string (sb "AGGREGATE") ++ enc_string ks ++ enc_string n ++ enc_string_list args
     end.
 
+(* a cell of a row is a [bytes]; for a tuple column its content is one [bytes] per component, in
+   order (a UDT or tuple value may stop early: the missing components are null) *)
+Inductive scell :=
+| CellVal (v : option bytes)
+| CellTuple (comps : option (list (option bytes))).
+
 Inductive sresult :=
 | RVoid                                                        (* kind 1 *)
-| RRows (m : smeta) (rows : list (list (option bytes)))        (* kind 2: <metadata><rows_count><rows_content> *)
+| RRows (m : smeta) (rows : list (list scell))                 (* kind 2: <metadata><rows_count><rows_content> *)
 | RSetKeyspace (ks : bytes)                                    (* kind 3 *)
 | RPrepared (id : bytes) (pk : list Z) (req resp : smeta)      (* kind 4: <id><metadata>[<result_metadata> v2+] *)
 | RSchemaChange (c : schange).                                 (* kind 5 *)
 
-Definition enc_row (r : list (option bytes)) : bytes := concat (map enc_bytes r).
-Definition enc_rows (rows : list (list (option bytes))) : bytes := concat (map enc_row rows).
+Definition enc_cell (c : scell) : bytes :=
+  match c with
+  | CellVal v => enc_bytes v
+  | CellTuple None => enc_bytes None
+  | CellTuple (Some comps) => enc_bytes (Some (concat (map enc_bytes comps)))
+  end.
+Definition enc_row (r : list scell) : bytes := concat (map enc_cell r).
+Definition enc_rows (rows : list (list scell)) : bytes := concat (map enc_row rows).
 
 Definition enc_result (v : Z) (r : sresult) : bytes :=
   match r with
@@ -394,27 +406,150 @@ Definition rows_content (r : response) : bytes :=
   match r with RespResult (RRows _ rows) => enc_rows rows | _ => [] end.
 
 (* what scanning the rows has to deliver: per row, one (type, value) per scan destination; a tuple
-   cell is a sequence of [bytes], one per component, a null tuple gives null components *)
-Fixpoint tuple_components (elems : list stype) (data : bytes) : list (option bytes) :=
+   column delivers one value per component (null for the components a short or null tuple lacks) *)
+Fixpoint pad_components (elems : list stype) (comps : list (option bytes)) : list cell :=
   match elems with
   | [] => []
-  | _ :: rest =>
-      match data with
-      | a :: b :: c :: d :: data' =>
-          let u := ((a * 256 + b) * 256 + c) * 256 + d in
-          if u <? 2 ^ 31 then Some (firstn (Z.to_nat u) data') :: tuple_components rest (skipn (Z.to_nat u) data')
-          else None :: tuple_components rest data'
-      | _ => None :: tuple_components rest data
+  | e :: rest =>
+      match comps with
+      | c :: comps' => {| cell_type := view_type e; cell_data := c |} :: pad_components rest comps'
+      | [] => {| cell_type := view_type e; cell_data := None |} :: pad_components rest []
       end
   end.
 
-Definition view_cells (c : scol) (v : option bytes) : list cell :=
-  match sc_type c with
-  | STuple elems =>
-      map (fun tv => {| cell_type := view_type (fst tv); cell_data := snd tv |})
-          (combine elems (tuple_components elems (match v with Some b => b | None => [] end)))
-  | t => [{| cell_type := view_type t; cell_data := v |}]
+Definition view_cells (c : scol) (v : scell) : list cell :=
+  match sc_type c, v with
+  | STuple elems, CellTuple comps => pad_components elems (match comps with Some l => l | None => [] end)
+  | STuple _, CellVal _ => []          (* ill-typed: excluded by wf_row *)
+  | t, CellVal v => [{| cell_type := view_type t; cell_data := v |}]
+  | _, CellTuple _ => []               (* ill-typed: excluded by wf_row *)
   end.
 
-Definition view_row (cols : list scol) (row : list (option bytes)) : list cell :=
+Definition view_row (cols : list scol) (row : list scell) : list cell :=
   concat (map (fun cv => view_cells (fst cv) (snd cv)) (combine cols row)).
+
+(* ---- well-formed responses: the size limits of the notations and the shapes the documents allow --- *)
+Definition wf_string (s : bytes) : Prop := len s < 65536.                       (* [string]: [short] length *)
+Definition wf_opt_bytes (v : option bytes) : Prop :=                              (* [bytes]: [int] length *)
+  match v with Some b => len b < 2 ^ 31 | None => True end.
+Definition wf_string_list (l : list bytes) : Prop := count l < 65536 /\ Forall wf_string l.
+Definition wf_multimap (m : list (bytes * list bytes)) : Prop :=
+  count m < 65536 /\ Forall (fun kv => wf_string (fst kv) /\ wf_string_list (snd kv)) m.
+Definition wf_bytes_map (m : list (bytes * option bytes)) : Prop :=
+  count m < 65536 /\ Forall (fun kv => wf_string (fst kv) /\ wf_opt_bytes (snd kv)) m.
+Definition wf_addr (a : bytes) : Prop := length a = 4%nat \/ length a = 16%nat.      (* [inetaddr] *)
+Definition wf_int (n : Z) : Prop := - 2 ^ 31 <= n < 2 ^ 31.                        (* [int] *)
+Definition wf_short (n : Z) : Prop := 0 <= n < 65536.                              (* [short] *)
+
+(* a custom type never names one of Cassandra's parameterised classes bare; native ids are the documented ones *)
+Fixpoint wf_stype (t : stype) : Prop :=
+  match t with
+  | SCustom c => wf_string c /\ ~ In (strip_marshal_prefix c) parameterised_classes
+  | SNative id => 1 <= id <= 21
+  | SList e => wf_stype e
+  | SSet e => wf_stype e
+  | SMap k v => wf_stype k /\ wf_stype v
+  | SUDT ks n fs =>
+      wf_string ks /\ wf_string n /\ count fs < 65536
+      /\ (fix go (l : list (bytes * stype)) : Prop :=
+            match l with [] => True | f :: l' => (wf_string (fst f) /\ wf_stype (snd f)) /\ go l' end) fs
+  | STuple es =>
+      count es < 65536
+      /\ (fix go (l : list stype) : Prop := match l with [] => True | e :: l' => wf_stype e /\ go l' end) es
+  end.
+
+
+Definition wf_col (c : scol) : Prop :=
+  wf_string (sc_ks c) /\ wf_string (sc_table c) /\ wf_string (sc_name c) /\ wf_stype (sc_type c).
+
+Definition wf_meta (m : smeta) : Prop :=
+  (match sm_global m with Some (ks, tb) => wf_string ks /\ wf_string tb | None => True end)
+  /\ wf_opt_bytes (sm_paging m)
+  /\ 0 <= sm_count m < 2 ^ 31
+  /\ (sm_nometa m = false -> sm_count m = count (sm_cols m) /\ Forall wf_col (sm_cols m)).
+
+Definition wf_fail (v : Z) (f : sfail) : Prop :=
+  match f with
+  | NumFailures n => v <= 4 /\ wf_int n
+  | ReasonMap l =>
+      5 <= v /\ count l < 2 ^ 31 /\ Forall (fun ac => wf_addr (fst ac) /\ wf_short (snd ac)) l
+      /\ NoDup (map (fun ac => endpoint_key (fst ac)) l)       (* one entry per endpoint *)
+  end.
+
+Definition wf_byte (b : Z) : Prop := 0 <= b < 256.
+
+Definition wf_err (v code : Z) (x : serr) : Prop :=
+  code = err_code_of x code /\
+  match x with
+  | XPlain => In code plain_error_codes
+  | XUnavailable cl a b => wf_short cl /\ wf_int a /\ wf_int b
+  | XWriteTimeout cl a b wt => wf_short cl /\ wf_int a /\ wf_int b /\ wf_string wt
+  | XReadTimeout cl a b dp => wf_short cl /\ wf_int a /\ wf_int b /\ wf_byte dp
+  | XReadFailure cl a b f dp => wf_short cl /\ wf_int a /\ wf_int b /\ wf_fail v f /\ wf_byte dp
+  | XFunctionFailure ks fn args => wf_string ks /\ wf_string fn /\ wf_string_list args
+  | XWriteFailure cl a b f wt => wf_short cl /\ wf_int a /\ wf_int b /\ wf_fail v f /\ wf_string wt
+  | XCDCWriteFailure => True
+  | XCASWriteUnknown cl a b => wf_short cl /\ wf_int a /\ wf_int b
+  | XAlreadyExists ks tb => wf_string ks /\ wf_string tb
+  | XUnprepared id => wf_string id
+  end.
+
+Definition wf_schange (v : Z) (c : schange) : Prop :=
+  match c with
+  | ScKeyspace ch ks => wf_string ch /\ wf_string ks
+  | ScTable ch ks n => wf_string ch /\ wf_string ks /\ wf_string n /\ (v <= 2 -> n <> [])
+  | ScType ch ks n => 3 <= v /\ wf_string ch /\ wf_string ks /\ wf_string n
+  | ScFunction ch ks n args => 3 <= v /\ wf_string ch /\ wf_string ks /\ wf_string n /\ wf_string_list args
+  | ScAggregate ch ks n args => 3 <= v /\ wf_string ch /\ wf_string ks /\ wf_string n /\ wf_string_list args
+  end.
+
+(* a cell fits its column: tuple columns carry tuple cells with at most as many components as the type *)
+Definition wf_cell (c : scol) (v : scell) : Prop :=
+  match sc_type c, v with
+  | STuple elems, CellTuple None => True
+  | STuple elems, CellTuple (Some comps) =>
+      (length comps <= length elems)%nat /\ Forall wf_opt_bytes comps /\ len (concat (map enc_bytes comps)) < 2 ^ 31
+  | STuple _, CellVal _ => False
+  | _, CellVal v => wf_opt_bytes v
+  | _, CellTuple _ => False
+  end.
+
+Definition wf_row (cols : list scol) (row : list scell) : Prop := Forall2 wf_cell cols row.
+
+Definition wf_result (v : Z) (r : sresult) : Prop :=
+  match r with
+  | RVoid => True
+  | RRows m rows =>
+      wf_meta m /\ count rows < 2 ^ 31
+      /\ (sm_nometa m = false -> Forall (wf_row (sm_cols m)) rows)
+  | RSetKeyspace ks => wf_string ks
+  | RPrepared id pk req resp =>
+      wf_string id /\ count pk < 2 ^ 31 /\ Forall wf_short pk /\ wf_meta req /\ wf_meta resp
+  | RSchemaChange c => wf_schange v c
+  end.
+
+Definition wf_event (v : Z) (e : sevent) : Prop :=
+  match e with
+  | EvTopology ch a p => wf_string ch /\ wf_addr a /\ wf_int p
+  | EvStatus ch a p => wf_string ch /\ wf_addr a /\ wf_int p
+  | EvSchema c => wf_schange v c
+  end.
+
+Definition wf_response (v : Z) (r : response) : Prop :=
+  match r with
+  | RespError code msg x => wf_int code /\ wf_string msg /\ wf_err v code x
+  | RespReady => True
+  | RespAuthenticate c => wf_string c
+  | RespSupported m => wf_multimap m
+  | RespResult r => wf_result v r
+  | RespEvent e => wf_event v e
+  | RespAuthChallenge t => wf_opt_bytes t
+  | RespAuthSuccess t => wf_opt_bytes t
+  end.
+
+Definition wf_envelope (e : envelope) : Prop :=
+  (match e_trace e with Some u => length u = 16%nat | None => True end)
+  /\ (match e_warnings e with Some w => wf_string_list w | None => True end)
+  /\ (match e_payload e with Some m => wf_bytes_map m | None => True end).
+
+Definition wf_version (v : Z) : Prop := 1 <= v <= 5.
